@@ -10,6 +10,8 @@ CONSTANTS
   MaxReq = 0
   MaxBg = 1000
   MaxEv = 1000
+  CloseEnds = FALSE
+  Deviations = {}
   Obs = TRUE
 CONSTRAINT TConstraint
 INVARIANT SingleConnect
@@ -19,5 +21,7 @@ INVARIANT AtMostOneContext
 INVARIANT OpOnReadySession
 INVARIANT Subscribed
 INVARIANT AfterCloseNoContext
+INVARIANT OnlyLibraryErrors
+INVARIANT BgNeverFails
 POSTCONDITION Accepted
 CHECK_DEADLOCK FALSE
